@@ -43,7 +43,7 @@ def transparent_proj(proj):
             if 'dc' in e:
                 prev_dc = True
                 continue
-            if 'f' in e and (e.get('adt') == 'tuple' or prev_dc):
+            if 'f' in e and (e.get('adt') == 'tuple' or (prev_dc and e['f'].isdigit())):
                 prev_dc = False
                 continue
         return False
@@ -66,7 +66,7 @@ class AP:
     def extend(self, *more):
         st = list(self.steps)
         for m in more:
-            if m.startswith('[') and st and st[-1].startswith('[') and (m == '[*]' or st[-1] == '[*]') and False:
+            if m == '[*]' and st and st[-1] == '[*]':
                 continue
             st.append(m)
         return AP(self.root, st)
@@ -279,8 +279,44 @@ class Ctx:
     def ap_carry(self, place):
         """the AP a reference-like value stored at `place` refers to"""
         if 'deref' not in place.proj and transparent_proj(place.proj):
-            return self.origin(place.local)
-        return self.ap_of_place(place)
+            r = self.origin(place.local)
+        else:
+            r = self.ap_of_place(place)
+        # `&mut iter` where `iter` is itself a carrier (iterator, Option<&T>, ...): look through to what it carries,
+        # but only when that leads to something rooted outside this function's temporaries
+        hops = 0
+        while r.root[0] == 'local' and not r.steps and hops < 6:
+            L = r.root[1]
+            if ('c', L) in self._busy:
+                break
+            self._busy.add(('c', L))
+            try:
+                ds = self.full_defs(L)
+                nxt = None
+                if len(ds) == 1:
+                    kind, d = ds[0]
+                    if kind == 'stmt' and d.rv.k in ('use', 'cast') and d.rv.a.is_place():
+                        pl = d.rv.a.place
+                        nxt = self.origin(pl.local) if ('deref' not in pl.proj and transparent_proj(pl.proj)) else self.ap_of_place(pl)
+                        if nxt.root == ('local', pl.local) and not nxt.steps and not pl.proj:
+                            nxt = AP(('local', pl.local))
+                    elif kind == 'call':
+                        nxt = self.origin_of_call(d, L)
+            finally:
+                self._busy.discard(('c', L))
+            if nxt is None or nxt == r:
+                break
+            if nxt.root[0] == 'local' and not nxt.steps:
+                r2 = nxt
+                hops += 1
+                # keep following, but remember where we started in case the chain ends at an unnamed temporary
+                first = r if hops == 1 else first
+                r = r2
+                continue
+            return nxt
+        if hops:
+            return first
+        return r
 
     def ap_of_place(self, place):
         proj = place.proj
@@ -307,10 +343,11 @@ class Ctx:
                 if 'f' in e:
                     if e['adt'] == 'closure':
                         base = AP(('upvar', e['f']))
-                    elif e['adt'] == 'tuple' or prev_dc:
+                    elif e['adt'] == 'tuple' or (prev_dc and e['f'].isdigit()):
                         prev_dc = False
                         continue
                     else:
+                        prev_dc = False
                         base = base.extend(e['f'])
                 elif 'idx' in e:
                     base = base.extend('[%s]' % key(self.expr_place(Place({'l': e['idx'], 'p': []}))))
